@@ -17,3 +17,124 @@ package pegnet
 //@   ensures @other err != nil && err != InsufficientBalanceErr && err != PFCTOneWayError && err != ZeroRatesError && err != PSMALLOneWayError ==> result0 == 0 && result1 == err
 //@   ensures @codes result0 == InsufficientBalanceErrInt || result0 == PFCTOneWayErrorInt || result0 == ZeroRatesErrorInt || result0 == PSMALLOneWayErrorInt || result0 == 0 || result0 == 1
 //@   modifies nothing
+//@
+//@ // =====================================================================================
+//@ // Ghost ledger: abstract view of the SQLite tables as seen through the block's sql.Tx.
+//@ //   Lbal[a][t]      pn_addresses balance of address a in ticker t (absent row = zeros)
+//@ //   Lsupply[t]      total of column t (kept in lock-step by AddToBalance / SubFromBalance)
+//@ //   Lrel[h]         some pn_address_transactions row exists for entry hash h
+//@ //   Lhist[h]        a pn_history_txbatch row exists for h; Lexec[h] its "executed" column
+//@ //   LtoAmt[h][i]    recorded to_amount of transaction i of batch h
+//@ //   Lhold[h]        height at which h sits in pn_transaction_batch_holding (-1 = not held)
+//@ //   Lrated[x]       pn_rate has rows for height x; Lrate[x][t] the value
+//@ //   envHealthy      no storage / upstream fault happens (SQL statements fail only per "fails iff")
+//@ // =====================================================================================
+//@ ghost var Lbal map[factom.FAAddress]map[int]int
+//@ ghost var Lsupply map[int]int
+//@ ghost var Lrel set[factom.Bytes32]
+//@ ghost var Lhist set[factom.Bytes32]
+//@ ghost var Lexec map[factom.Bytes32]int
+//@ ghost var LtoAmt map[factom.Bytes32]map[int]int
+//@ ghost var Lrefund map[factom.Bytes32]map[int]int
+//@ ghost var Lhold map[factom.Bytes32]int
+//@ ghost var Lrated set[int]
+//@ ghost var Lrate map[int]map[int]int
+//@ ghost var envHealthy bool
+//@
+//@ spec func validTicker(t int) bool = fat2.PTickerInvalid < t && t < fat2.PTickerMax
+//@ spec func balNonNeg(b map[factom.FAAddress]map[int]int) bool = forall a factom.FAAddress, t int :: b[a][t] >= 0
+//@ spec func credit(b map[factom.FAAddress]map[int]int, a factom.FAAddress, t int, v int) map[factom.FAAddress]map[int]int = upd(b, a, upd(b[a], t, b[a][t] + v))
+//@
+//@ func (*Pegnet).AddToBalance
+//@   trusted
+//@   modifies Lbal, Lsupply
+//@   ensures err == nil ==> Lbal == credit(old(Lbal), *adr, ticker, value)
+//@   ensures err == nil ==> Lsupply == upd(old(Lsupply), ticker, old(Lsupply)[ticker] + value)
+//@   ensures envHealthy && validTicker(ticker) && value <= MaxInt64 ==> err == nil
+//@
+//@ func (*Pegnet).SelectPendingBalance
+//@   trusted
+//@   pure
+//@   ensures err == nil ==> result == Lbal[*adr][ticker] && validTicker(ticker)
+//@   ensures err != sql.ErrNoRows
+//@   ensures envHealthy && validTicker(ticker) ==> err == nil
+//@
+//@ func (*Pegnet).SelectPendingBalances
+//@   trusted
+//@   pure
+//@   ensures err == nil ==> result != nil && fresh(result) && (forall t fat2.PTicker :: validTicker(t) ==> dom(result)[t] && vals(result)[t] == Lbal[*adr][t])
+//@   ensures err == nil ==> (forall t fat2.PTicker :: dom(result)[t] ==> validTicker(t))
+//@   ensures envHealthy ==> err == nil
+//@
+//@ extern func (*database/sql.Tx).Prepare
+//@   pure
+//@   ensures result1 == nil ==> result0 != nil
+//@   ensures envHealthy ==> result1 == nil
+//@
+//@ extern func (database/sql.Result).LastInsertId
+//@   pure
+//@   ensures envHealthy ==> result1 == nil
+//@
+//@ site (*Pegnet).SubFromBalance | (*database/sql.Stmt).Exec | 1
+//@   modifies Lbal, Lsupply
+//@   ensures err == nil ==> Lbal == credit(old(Lbal), *adr, ticker, 0 - value)
+//@   ensures err == nil ==> Lsupply == upd(old(Lsupply), ticker, old(Lsupply)[ticker] - value)
+//@   ensures envHealthy && old(Lbal)[*adr][ticker] >= value ==> err == nil
+//@   ensures err == nil ==> result0 != nil
+//@
+//@ func (*Pegnet).SubFromBalance
+//@   props C03 C04
+//@   requires @nonneg balNonNeg(Lbal)
+//@   modifies Lbal, Lsupply
+//@   ensures @applied err == nil && txError == nil ==> old(Lbal)[*adr][ticker] >= value && Lbal == credit(old(Lbal), *adr, ticker, 0 - value) && Lsupply == upd(old(Lsupply), ticker, old(Lsupply)[ticker] - value)
+//@   ensures @insufficient err == nil && txError != nil ==> txError == InsufficientBalanceErr && old(Lbal)[*adr][ticker] < value && Lbal == old(Lbal) && Lsupply == old(Lsupply)
+//@   ensures @decides err == nil ==> ((txError == nil) <==> old(Lbal)[*adr][ticker] >= value)
+//@   ensures @never_negative err == nil ==> balNonNeg(Lbal)
+//@   ensures @only_known_txerr txError == nil || txError == InsufficientBalanceErr
+//@   ensures @healthy envHealthy && validTicker(ticker) && value <= MaxInt64 ==> err == nil
+//@   canary @debit_always err == nil ==> Lbal == credit(old(Lbal), *adr, ticker, 0 - value)
+//@
+//@ func (*Pegnet).InsertTransactionRelation
+//@   trusted
+//@   modifies Lrel
+//@   ensures result1 == nil ==> Lrel == upd(old(Lrel), *entryHash, true)
+//@   ensures envHealthy ==> result1 == nil
+//@
+//@ func (*Pegnet).IsReplayTransaction
+//@   trusted
+//@   pure
+//@   ensures result1 == nil ==> (result0 <==> Lrel[*entryHash])
+//@   ensures envHealthy ==> result1 == nil
+//@
+//@ func (*Pegnet).SetTransactionHistoryExecuted
+//@   trusted
+//@   modifies Lexec
+//@   ensures result == nil ==> Lexec == upd(old(Lexec), *txbatch.Entry.Hash, executed)
+//@   ensures envHealthy ==> result == nil
+//@
+//@ func (*Pegnet).SetTransactionHistoryConvertedAmount
+//@   trusted
+//@   modifies LtoAmt
+//@   ensures result == nil ==> LtoAmt == upd(old(LtoAmt), *txbatch.Entry.Hash, upd(old(LtoAmt)[*txbatch.Entry.Hash], index, amount))
+//@   ensures envHealthy ==> result == nil
+//@
+//@ func (*Pegnet).SetTransactionHistoryPEGConvertedRequestAmount
+//@   trusted
+//@   modifies LtoAmt, Lrefund
+//@   ensures result == nil ==> LtoAmt == upd(old(LtoAmt), *txbatch.Entry.Hash, upd(old(LtoAmt)[*txbatch.Entry.Hash], index, pegAmount))
+//@   ensures result == nil ==> Lrefund == upd(old(Lrefund), *txbatch.Entry.Hash, upd(old(Lrefund)[*txbatch.Entry.Hash], index, refundAmount))
+//@   ensures envHealthy ==> result == nil
+//@
+//@ // history rows: (entry_hash, height) and (entry_hash, tx_index) are unique => fails iff a row for the hash exists
+//@ func (*Pegnet).InsertTransactionHistoryTxBatch
+//@   trusted
+//@   modifies Lhist, Lexec
+//@   ensures result == nil ==> !old(Lhist)[*txbatch.Entry.Hash] && Lhist == upd(old(Lhist), *txbatch.Entry.Hash, true) && Lexec == upd(old(Lexec), *txbatch.Entry.Hash, 0)
+//@   ensures envHealthy && !old(Lhist)[*txbatch.Entry.Hash] ==> result == nil
+//@
+//@ // holding: entry_hash UNIQUE => fails iff already held
+//@ func (*Pegnet).InsertTransactionBatchHolding
+//@   trusted
+//@   modifies Lhold
+//@   ensures result1 == nil ==> old(Lhold)[*txBatch.Entry.Hash] < 0 && Lhold == upd(old(Lhold), *txBatch.Entry.Hash, height)
+//@   ensures envHealthy && old(Lhold)[*txBatch.Entry.Hash] < 0 ==> result1 == nil
